@@ -1,6 +1,6 @@
 (* C16 — non-vacuity examples for the hypotheses of Props.v, and recorded witnesses *)
 From Coq Require Import ZArith List Bool Lia.
-From FV Require Import C16.Model C16.Proofs C16.Proofs2.
+From FV Require Import C16.Model C16.Proofs C16.Proofs2 C16.Proofs4.
 Import ListNotations.
 Open Scope Z_scope.
 
@@ -87,4 +87,12 @@ Proof. vm_compute. repeat split; reflexivity. Qed.
 Example promote_example :
   let l : lookup Z Z := {| lk_type := 2; lk_flags := 16; lk_mfs := Some 3; lk_subs := [SPP1 t1] |} in
   lk_type (promote l) = 9 /\ lk_mfs (promote l) = Some 3 /\ lookup_apply (promote l) 13 2 = Some (inl 104).
+Proof. vm_compute. repeat split; reflexivity. Qed.
+
+(* class rules in insertion order: [A][B]=10; [A C][B]=20; [C][B]=30 (A=1, C=3, B=7): three subtables, (C,B) = 20
+   (the input of seeded mutant C16/m5, which files rule 3 into subtable 1 and answers 30) *)
+Example class_sequence_example :
+  let gs := cpp_build [([1], [7], 10); ([1; 3], [7], 20); ([3], [7], 30)] in
+  length gs = 3%nat /\ cpp_lookup gs 3 7 = Some (Some 20) /\ cpp_lookup gs 1 7 = Some (Some 10) /\ cpp_lookup gs 3 8 = Some None
+  /\ cpp_lookup gs 5 7 = None.
 Proof. vm_compute. repeat split; reflexivity. Qed.
